@@ -16,15 +16,16 @@ case "$ID" in
   C02|C03|C06|C08|C11|C12|C13|C14|C15|C16|C18|C19|C20) PLAN="fz_struct:800000:4000";;
   *) exit 0;;
 esac
-cd /verif/harness || exit 2
+ROOT="${VERIF_ROOT:-/verif}"
+cd "$ROOT/harness" || exit 2
 export CARGO_NET_OFFLINE=true
-if ! cargo +nightly fuzz build -O --fuzz-dir ../fuzz >/verif/fuzz/build.log 2>&1; then
-  echo "INCONCLUSIVE property=$ID fuzz targets do not build (see /verif/fuzz/build.log)" >&2
+if ! cargo +nightly fuzz build -O --fuzz-dir ../fuzz >$ROOT/fuzz/build.log 2>&1; then
+  echo "INCONCLUSIVE property=$ID fuzz targets do not build (see $ROOT/fuzz/build.log)" >&2
   exit 2
 fi
-BIN=/verif/fuzz/target/x86_64-unknown-linux-gnu/release
-HARNESS=/verif/harness/target/release/verif
-WORK=/verif/fuzz/work/$ID.$$
+BIN=$ROOT/fuzz/target/x86_64-unknown-linux-gnu/release
+HARNESS=$ROOT/harness/target/release/verif
+WORK=$ROOT/fuzz/work/$ID.$$
 rc=0
 for item in $PLAN; do
   T=${item%%:*}; rest=${item#*:}; RUNS=${rest%%:*}; MAXLEN=${rest#*:}
@@ -57,5 +58,5 @@ for item in $PLAN; do
   fi
 done
 rm -rf "$WORK"
-rmdir /verif/fuzz/work 2>/dev/null
+rmdir $ROOT/fuzz/work 2>/dev/null
 exit $rc
